@@ -63,9 +63,18 @@ pub const ODD_NAMES: &[&str] = &[
     "1e3", "-", "λ:", "$x:", "+foo:", "x:", "0x10", "1/2", "é", "\u{a0}x", "a\tb",
 ];
 
+/// plain identifiers that are near misses of spellings the reader treats specially (case variants of
+/// nil / t, prefixes and extensions of reserved names, radix and exponent letters)
+pub const NEAR_RESERVED: &[&str] = &[
+    "NIL", "Nil", "nIl", "niL", "T", "nill", "ni", "il", "tt", "tru", "true", "false", "f", "nul", "null", "quote",
+    "quasiquote", "unquote", "unquote-splicing", "nil.", "t.", "nil-", "t+", "nil@", "e", "E", "x", "b", "o", "d", "e1", "E5",
+    "x1F", "b101", "i", "inf", "nan", "u8", "vu8", "newline", "space", "N", "U", "nilnil", "t-t",
+];
+
 pub fn gen_ident(r: &mut Rng) -> String {
-    match r.below(10) {
+    match r.below(11) {
         0 => r.pick(PECULIAR).to_string(),
+        10 => r.pick(NEAR_RESERVED).to_string(),
         1 => {
             // short
             ident_initial(r)
@@ -187,7 +196,8 @@ pub fn gen_atom(r: &mut Rng, c: &VCfg) -> Value {
         10 | 11 => Value::symbol(gen_name(r, c.odd_names)),
         12 => Value::keyword(gen_name(r, c.odd_names)),
         _ => {
-            let n = if r.chance(1, 4) { 0 } else { r.below(c.maxlen + 1) };
+            // occasionally long: printers may batch or buffer the element text (16, 32, 64, 128 ... byte boundaries)
+            let n = if r.chance(1, 4) { 0 } else if r.chance(1, 8) { *r.pick(&[15usize, 16, 17, 21, 22, 31, 32, 33, 63, 64, 65, 100, 127, 128, 129, 257]) + r.below(3) } else { r.below(c.maxlen + 1) };
             Value::bytes((0..n).map(|_| match r.below(4) { 0 => 0, 1 => 255, _ => r.below(256) as u8 }).collect::<Vec<u8>>())
         }
     }
@@ -559,7 +569,14 @@ pub fn generate(family: &str, seed: u64, count: usize, emit: &mut dyn FnMut(Stri
         "alist" => {
             for _ in 0..count {
                 let n = r.below(7);
-                let keys: Vec<Value> = (0..3).map(|_| match r.below(4) { 0 => Value::symbol(gen_name(&mut r, true)), 1 => Value::string(gen_name(&mut r, true)), 2 => Value::keyword(gen_name(&mut r, true)), _ => gen_atom(&mut r, &VCFG_ANY) }).collect();
+                let mut keys: Vec<Value> = (0..3).map(|_| match r.below(4) { 0 => Value::symbol(gen_name(&mut r, true)), 1 => Value::string(gen_name(&mut r, true)), 2 => Value::keyword(gen_name(&mut r, true)), _ => gen_atom(&mut r, &VCFG_ANY) }).collect();
+                // the same spelling as a string, a symbol and a keyword; equal numbers of different kinds
+                if r.chance(1, 2) {
+                    let nm = gen_name(&mut r, false);
+                    keys = vec![Value::symbol(nm.clone()), Value::string(nm.clone()), Value::keyword(nm)];
+                } else if r.chance(1, 4) {
+                    keys = vec![Value::from(1), Value::from(1.0), Value::string("1"), Value::Char('1')];
+                }
                 let mut xs = Vec::new();
                 for _ in 0..n {
                     xs.push(match r.below(5) {
@@ -575,6 +592,19 @@ pub fn generate(family: &str, seed: u64, count: usize, emit: &mut dyn FnMut(Stri
             }
         }
         "prims" => {
+            // every integer at a width boundary against its reinterpretation in every other integer type
+            let mut ints: Vec<i128> = Vec::new();
+            for k in [7u32, 8, 15, 16, 31, 32, 63, 64] { for d in [-2i128, -1, 0, 1, 41] { ints.push((1i128 << k) + d); ints.push(-(1i128 << k) + d); } }
+            ints.extend_from_slice(&[0, 1, -1, 42, -42, u64::MAX as i128, u64::MAX as i128 - 41, i64::MIN as i128, i64::MAX as i128]);
+            for n in ints {
+                let v = if n >= 0 && n <= u64::MAX as i128 { Value::from(n as u64) } else if n >= i64::MIN as i128 && n < 0 { Value::from(n as i64) } else { continue };
+                let e = enc_value_text(&v);
+                for p in [format!("i64:{}", n as i64), format!("i32:{}", n as i32), format!("i16:{}", n as i16), format!("i8:{}", n as i8),
+                          format!("u64:{}", n as u64), format!("u32:{}", n as u32), format!("u16:{}", n as u16), format!("u8:{}", n as u8),
+                          format!("f64:{:016x}", (n as f64).to_bits()), format!("f32:{:08x}", (n as f32).to_bits())] {
+                    emit(format!("cmp {} {}", p, e));
+                }
+            }
             for _ in 0..count {
                 let p = gen_prim(&mut r, None);
                 emit(format!("from {}", p));
@@ -736,6 +766,13 @@ pub fn generate(family: &str, seed: u64, count: usize, emit: &mut dyn FnMut(Stri
                 for k in 0..=text.len() {
                     emit(parse_op(&format!("x{}", k), &ro, api, &text));
                 }
+                // a reader that keeps failing with WouldBlock / TimedOut (a parser must not retry for ever), and a
+                // reader that fails once and then delivers the rest, with the caller retrying on the same parser
+                let hist = *r.pick(&["h:dddddd", "h:vvvvvv", "h:dvdvdv", "h:jjjjjj", "h:DdDdDd", "h:ddeddd"]);
+                for k in 0..=text.len() {
+                    if (k + text.len()) % 2 == 0 { emit(parse_op(&format!("w{}", k), &ro, api, &text)); }
+                    emit(parse_op(&format!("y{}", k), &ro, hist, &text));
+                }
             }
         }
         "prefix" => {
@@ -753,6 +790,41 @@ pub fn generate(family: &str, seed: u64, count: usize, emit: &mut dyn FnMut(Stri
                 let text = if text.len() > 60 { continue } else { text };
                 for k in 0..=text.len() {
                     emit(format!("prefix {} {} {} {}", ro, k, fast_flag(), hex(&text)));
+                }
+            }
+        }
+        "opts" => {
+            // chains of builder calls on parse::Options / print::Options: every chain of length <= 2 from every
+            // starting point, then random longer chains
+            let rset: Vec<String> = {
+                let mut v: Vec<String> = vec!["k0", "k1", "k2", "n0", "n1", "n2", "t0", "t1", "b0", "b1", "s0", "s1", "c0", "c1", "r0", "r1", "d0", "d1"].into_iter().map(String::from).collect();
+                for m in 0..8u8 { let mut k = String::from("K"); for b in 0..3 { if m & (1 << b) != 0 { k.push((b'0' + b) as char); } } v.push(k); }
+                v.push("K10".into()); v.push("K22".into()); v.push("K210".into());
+                v
+            };
+            let pset: Vec<&str> = vec!["k0", "k1", "k2", "n0", "n1", "n2", "n3", "o0", "o1", "v0", "v1", "y0", "y1", "y2", "s0", "s1", "c0", "c1"];
+            for st in ["new", "default", "elisp"] {
+                emit(format!("opts R {}", st));
+                for a in rset.iter() {
+                    emit(format!("opts R {} {}", st, a));
+                    for b in rset.iter() { emit(format!("opts R {} {} {}", st, a, b)); }
+                }
+            }
+            for st in ["default", "elisp"] {
+                emit(format!("opts P {}", st));
+                for a in pset.iter() {
+                    emit(format!("opts P {} {}", st, a));
+                    for b in pset.iter() { emit(format!("opts P {} {} {}", st, a, b)); }
+                }
+            }
+            for _ in 0..(600 * count) {
+                let n = 3 + r.below(6);
+                if r.chance(2, 3) {
+                    let ops: Vec<String> = (0..n).map(|_| r.pick(&rset).clone()).collect();
+                    emit(format!("opts R {} {}", r.pick(&["new", "default", "elisp"]), ops.join(" ")));
+                } else {
+                    let ops: Vec<&str> = (0..n).map(|_| *r.pick(&pset)).collect();
+                    emit(format!("opts P {} {}", r.pick(&["default", "elisp"]), ops.join(" ")));
                 }
             }
         }
@@ -778,6 +850,14 @@ pub fn generate(family: &str, seed: u64, count: usize, emit: &mut dyn FnMut(Stri
             for _ in 0..count {
                 let lit = gen_num_literal(&mut r);
                 emit(parse_op("b", R_DEFAULT, "v1", lit.as_bytes()));
+                // the same literal where what follows it matters, from the other sources too
+                if r.chance(1, 3) {
+                    let ctx = *r.pick(&["(@)", "(@ x)", "#(@ 1)", "(a . @)", "@ y", "(@;c\n)", "[@]", "'@", "(@\"s\")"]);
+                    let text = ctx.replace("@", &lit);
+                    let src = *r.pick(&["b", "s", "i1", "I3", "i0"]);
+                    let ro = if r.chance(1, 3) { gen_ropts(&mut r) } else { R_DEFAULT.to_string() };
+                    emit(parse_op(src, &ro, "r:v:4", text.as_bytes()));
+                }
             }
         }
         "pp" => {
@@ -799,6 +879,8 @@ pub fn generate(family: &str, seed: u64, count: usize, emit: &mut dyn FnMut(Stri
                     _ => random_text(&mut r),
                 };
                 emit(pp_op(&text, &ro));
+                // a parser reading Emacs Lisp strings also corresponds to a printer writing byte vectors as unibyte strings
+                if ro.as_bytes()[6] == b'1' && r.chance(1, 2) { emit(pp_op(&text, &ro).replacen("pp ", "ppe ", 1)); }
             }
         }
         "ppfix" => {
@@ -821,7 +903,25 @@ pub fn generate(family: &str, seed: u64, count: usize, emit: &mut dyn FnMut(Stri
                 emit(pp_op(format!("{}x{}", "(a . ".repeat(n), ")".repeat(n)).as_bytes(), R_DEFAULT));
                 emit(pp_op(format!("{}x{}", "[".repeat(n), "]".repeat(n)).as_bytes(), R_ELISP));
             }
-            for text in PP_TEXTS { for ro in [R_DEFAULT, R_ELISP, "1110011111", "0101100010"] { emit(pp_op(text.as_bytes(), ro)); } }
+            for text in PP_TEXTS { for ro in [R_DEFAULT, R_ELISP, "1110011111", "0101100010", "1100011111"] { emit(pp_op(text.as_bytes(), ro)); } }
+            // byte vectors written as unibyte strings: every pair of octets (an escape followed by a digit, a quote, a backslash ...)
+            for a in [0u8, 1, 7, 8, 27, 34, 48, 55, 56, 57, 65, 92, 127, 128, 200, 255] {
+                for b in [0u8, 1, 9, 34, 48, 49, 55, 56, 57, 65, 92, 97, 102, 120, 127, 128, 255] {
+                    for ro in [R_ELISP, "0012011001"] {
+                        emit(pp_op(format!("#u8({} {})", a, b).as_bytes(), ro).replacen("pp ", "ppe ", 1));
+                        emit(pp_op(format!("(#u8({} {} {}) x)", b, a, b).as_bytes(), ro).replacen("pp ", "ppe ", 1));
+                    }
+                }
+            }
+            // nil / t / () at the recursion limit, where the spelling the printer chooses may need one level more
+            for n in 125..=128usize {
+                for atom in ["nil", "t", "()", "#nil", "x"] {
+                    for ro in [R_DEFAULT, R_ELISP, "0012000000"] {
+                        emit(pp_op(format!("{}{}{}", "(".repeat(n), atom, ")".repeat(n)).as_bytes(), ro));
+                        emit(pp_op(format!("{}{}{}", "[".repeat(n), atom, "]".repeat(n)).as_bytes(), ro));
+                    }
+                }
+            }
             for text in PREFIX_TEXTS { for ro in [R_DEFAULT, R_ELISP, "1110011111", "0101100010"] { emit(pp_op(text.as_bytes(), ro)); } }
         }
         "escapes" => {
@@ -998,6 +1098,7 @@ pub const PP_TEXTS: &[&str] = &[
     "\"\\u00e9\"", "?a", "?\\(", "nil", "t", ":a", "a:", "(a.b)", "(a .b)", "#(1 . 2)", "18446744073709551616", "-9223372036854775809",
     "#x10000000000000000", "1e400", "#true", "#false", "#t#f", "(#t#f)", "a;c\nb", "\"a\nb\"", "#\\(", "#\\ ", "#\\;x",
     "'.|a", "'.\"x", "`.|a", ",@.|a", "(x . .|a)", "#(.|a)", ".|a", "'.a", "(a '.|b)", "'+|a", "'a|b", "'a\"b\"",
+    ".:", "(a .:)", "(.: a)", "..:", "'.:", "#(.:)", ":.", "#:.", "(a . .:)", "'.\"x\"",
 ];
 
 pub const TOKEN_CORPUS: &[&str] = &[
@@ -1048,9 +1149,12 @@ pub fn gen_sched(r: &mut Rng, len: usize) -> String {
         2 => format!("k{}", 1000),
         _ => format!("r{}", r.below(100000)),
     };
-    match r.below(5) {
+    match r.below(7) {
         0 => s.push_str(&format!(",f{}", r.below(len + 2))),
         1 => s.push_str(&format!(",z{}", r.below(len + 2))),
+        // a sink that refuses one write and accepts later ones
+        2 => s.push_str(&format!(",F{}", r.below(len + 2))),
+        3 => s.push_str(&format!(",Z{}", r.below(len + 2))),
         _ => {}
     }
     if r.chance(1, 3) {
@@ -1064,6 +1168,17 @@ pub fn gen_prim(r: &mut Rng, near: Option<&Value>) -> String {
     if let Some(v) = near {
         if r.chance(2, 3) {
             if let Some(n) = v.as_u64() {
+                // the payload reinterpreted in a signed or narrower type (what an `as` cast would produce)
+                if r.chance(1, 4) {
+                    return match r.below(6) {
+                        0 => format!("i64:{}", n as i64),
+                        1 => format!("i32:{}", n as i32),
+                        2 => format!("i16:{}", n as i16),
+                        3 => format!("i8:{}", n as i8),
+                        4 => format!("u32:{}", n as u32),
+                        _ => format!("u8:{}", n as u8),
+                    };
+                }
                 return match r.below(6) {
                     0 if n <= u8::MAX as u64 => format!("u8:{}", n),
                     1 if n <= u16::MAX as u64 => format!("u16:{}", n),
@@ -1074,6 +1189,15 @@ pub fn gen_prim(r: &mut Rng, near: Option<&Value>) -> String {
                 };
             }
             if let Some(n) = v.as_i64() {
+                if r.chance(1, 4) {
+                    return match r.below(5) {
+                        0 => format!("u64:{}", n as u64),
+                        1 => format!("u32:{}", n as u32),
+                        2 => format!("u8:{}", n as u8),
+                        3 => format!("i8:{}", n as i8),
+                        _ => format!("i32:{}", n as i32),
+                    };
+                }
                 return match r.below(5) {
                     0 if n >= i8::MIN as i64 && n <= i8::MAX as i64 => format!("i8:{}", n),
                     1 if n >= i16::MIN as i64 && n <= i16::MAX as i64 => format!("i16:{}", n),
